@@ -149,6 +149,7 @@ type streamHandler struct {
 	ch     chan *goatorepo.Rpc
 	done   chan struct{}
 	cancel context.CancelFunc
+	ctx    context.Context
 }
 
 // handler for a specific goat.RpcReadWriter
@@ -428,6 +429,9 @@ func (h *handler) processStreamingRpc(
 		} else {
 			select {
 			case handler.ch <- rpc:
+			case <-handler.ctx.Done():
+				// The stream is finishing (its handler returned or it was reset):
+				// nobody will read this, and its unregistration needs h.mu.
 			case <-clientCtx.Done():
 				return clientCtx.Err()
 			case <-h.ctx.Done():
@@ -469,6 +473,7 @@ func (h *handler) processStreamingRpc(
 		ch:     make(chan *goatorepo.Rpc, 1),
 		done:   make(chan struct{}, 1),
 		cancel: cancel,
+		ctx:    ctx,
 	}
 
 	go h.runStream(info, sd, rpc, streamId, ctx, h.streams[streamId])
